@@ -8,7 +8,7 @@ from harness import gen
 from harness.framework import Suite
 
 PID = "C08"
-LEAN_MODS = ["SwcVerif.Props.C08", "SwcVerif.Props.C08Gen", "SwcVerif.Props.C08Node", "SwcVerif.Props.C08BranchTree"]
+LEAN_MODS = ["SwcVerif.Props.C08", "SwcVerif.Props.C08Gen", "SwcVerif.Props.C08Node", "SwcVerif.Props.C08BranchTree", "SwcVerif.Props.C08NodeFull"]
 # Gen/AlgoBranches.lean (Tree.get_branches / get_paths / get_furcations and their closures) runs on Gen/AlgoTraverse.lean;
 # Gen/AlgoNodeBranch.lean (Tree.get_tips, Tree.Node.branch) runs on the node methods of Gen/AlgoNode.lean
 TRANSLATE_ALGO = ["AlgoTraverse", "AlgoBranches", "AlgoNode", "AlgoNodeBranch", "AlgoSubtree", "AlgoBranchTree"]
@@ -31,6 +31,9 @@ THEOREMS = [
     "RefineBranchTree.step_eq", "RefineBranchTree.fromTree_refines_on", "RefineBranchTree.fileBranches_spec", "RefineBranchTree.toSubTopology_total",
     "C08.furcs_tips_nodup", "C08.branch_mem", "C08.branch_head_mem", "C08.branch_nodes_nodup",
     "C08.generated_fromTree_eq_model", "C08.branchTree_model_spec", "C08.generated_branchTree_table",
+    # Node.branch() returns a member of the decomposition (the open item of C08Node: membership; interior nodes have exactly one child)
+    "C08.downOK_det", "C08.downOK_interior", "C08.chain_all", "C08.cover_all", "C08.branchesOf_chain", "C08.upOK_reverse",
+    "C08.nodeBranch_mem_branchesOf", "C08.generated_nodeBranch_mem_branches",
 ]
 TRUSTED = ["hand-written models Model/Branches.lean of the traversal callbacks (tied by the c08.decomp correspondence suite)"]
 ASSUMPTIONS = ["the traversal loop is C04's machine (C04.traverse_eq_spec)", "np.setdiff1d returns the sorted ids that never occur as a parent"]
